@@ -254,7 +254,9 @@ func str(v interface{}) string {
 // Action applies a replica REST action; called by the redirected (*remote.Remote).doAction
 // with the very object the real code would have JSON-encoded.
 func (m *Replica) Action(action string, obj interface{}) error {
-	m.noteCall(action != "open")
+	// "delete" (DELETE /v1/delete fan-out of the volume deletion) is sent by goroutines
+	// that by design run outside the controller lock
+	m.noteCall(action != "open" && action != "delete")
 	m.Actions = append(m.Actions, action)
 	if m.fail("a." + action) {
 		m.FailedActions = append(m.FailedActions, action)
